@@ -30,3 +30,8 @@ Proof. prove_load_spec. Qed.
 (** over the kernel model of KernelState.v *)
 Definition kload : kworld -> filt -> kworld * lres := gen_load kstate do_seccomp do_prctl.
 Definition kload_spec : load_spec kstate do_seccomp do_prctl kload := gen_load_spec kstate do_seccomp do_prctl.
+
+(** ... and over the same kernel model with the loader's own system calls filtered by the filters already installed
+    (KernelState: do_seccomp_g / do_prctl_g). [gen_load_spec] is stated for every kernel, so nothing new is proved here. *)
+Definition kload_g : kworld -> filt -> kworld * lres := gen_load kstate do_seccomp_g do_prctl_g.
+Definition kload_g_spec : load_spec kstate do_seccomp_g do_prctl_g kload_g := gen_load_spec kstate do_seccomp_g do_prctl_g.
